@@ -333,9 +333,25 @@ void case_o5m(uint64_t idx, vh::Rng& rng) {
         for (int i = 0; i < 4; ++i) pool.push_back(mdl::gen_string(rng, go.charset, 20));
         for (auto& o : D) { if (rng.coin()) { o.user = rng.pick(pool); o.uid = 1 + static_cast<uint32_t>(rng.below(3)); } for (auto& t : o.tags) if (rng.coin()) { t.k = rng.pick(pool); t.v = rng.pick(pool); } for (auto& m : o.members) if (rng.coin()) m.role = rng.pick(pool); }
     }
+    // string pairs exactly at the storage limit of the reference table (250 characters are stored,
+    // 251 are not), each used several times so that later references depend on the table position
+    const bool boundary_pairs = rng.chance(1, 5);
+    if (boundary_pairs && !D.empty()) {
+        for (size_t total : {size_t(249), size_t(250), size_t(251), size_t(252)}) {
+            const size_t klen = 1 + rng.below(100);
+            const mdl::Tag t{std::string(klen, static_cast<char>('a' + total % 26)), std::string(total - klen, 'v')};
+            for (int rep = 0; rep < 3; ++rep) {
+                Obj& o = D[rng.below(D.size())];
+                if (o.visible) { o.tags.push_back(t); o.tags.push_back(mdl::Tag{"k" + std::to_string(rep), "after"}); }
+            }
+        }
+        vh::count("o5m_files_with_pairs_at_the_250_character_limit");
+    }
     maybe_interleave(rng, D);
     c02::fit_refs(D);
+    c02::allow_boundary_pairs() = boundary_pairs;
     c02::fit_o5m(D, cfg.o5c);
+    c02::allow_boundary_pairs() = false;
     const mdl::Header H = gen_small_header(rng, mdl::Charset::any_utf8);
     c02::O5mEncoder enc{rng, cfg};
     const c02::O5mResult r = enc.encode(D, H);
